@@ -232,7 +232,7 @@ def check_pervaporation(ck, repo, scope):
         for o in outs:
             if o.kind != "return" or not isinstance(o.value, ObjV):
                 continue
-            pf = o.value.fields.get("partial_fluxes")
+            pf = famify(o.value.fields.get("partial_fluxes"))
             if isinstance(pf, ListV) and pf.kind == "fam" and isinstance(pf.elem, TupV) and len(pf.elem.items) == 2:
                 paired(ck, Sigma(repo), f.qualname, "partial fluxes of a curve point", pf.elem.items[0], pf.elem.items[1], f.loc(), "mode=%s" % mode)
             for c in o.calls:
@@ -307,7 +307,7 @@ def check_curve_and_metrics(ck, repo, scope):
                     continue
                 me = o.env.get("self")
                 for fld in ("partial_fluxes", "permeances"):
-                    v = me.fields.get(fld) if isinstance(me, ObjV) else None
+                    v = famify(me.fields.get(fld)) if isinstance(me, ObjV) else None
                     if isinstance(v, ListV) and v.kind == "fam" and isinstance(v.elem, TupV) and len(v.elem.items) == 2:
                         n += 1
                         paired(ck, Sigma(repo), post.qualname, "computed %s of a curve point" % fld, v.elem.items[0], v.elem.items[1], post.loc(), cfgl)
@@ -326,9 +326,10 @@ def check_curve_and_metrics(ck, repo, scope):
         ck.analysed["paths"] += len(outs)
         done = 0
         for o in outs:
-            if o.kind != "return" or not isinstance(o.value, ListV) or o.value.kind != "fam":
+            ov = famify(o.value) if o.kind == "return" else None
+            if ov is None or not isinstance(ov, ListV) or ov.kind != "fam":
                 continue
-            e = o.value.elem
+            e = ov.elem
             if kind == "comp":
                 p = comp_p_of(e)
                 if p is not None:
